@@ -393,11 +393,13 @@ def read : M (BitVec 64 × BitVec 64) := do
 /-- `ApicBase::write_raw`: `msr.write(flags | addr.as_u64())`. -/
 def writeRaw (frame flags : BitVec 64) : M Unit := Msr.write MSR_APIC_BASE (flags ||| frame)
 
-/-- `ApicBase::write`: `reserved = old_flags & !(ApicBaseFlags::all().bits())` where `old_flags`
-is the *whole* raw register (base address included). -/
+/-- `ApicBase::write`: `reserved = old_flags & !(ApicBaseFlags::all().bits()) & !0x000f_ffff_ffff_f000`
+(the base-address field, bits 12–51, is replaced by `frame`; it is not a reserved field).
+History: before /repo commit beef14c the second mask was missing, so the old base address was kept
+as "reserved" and OR-ed into the new one (DESIGN.md section 9, F6). -/
 def write (frame flags : BitVec 64) : M Unit := do
   let (_, oldFlags) ← readRaw
-  let reserved := oldFlags &&& ~~~APIC_BASE_ALL
+  let reserved := oldFlags &&& ~~~APIC_BASE_ALL &&& ~~~0x000ffffffffff000#64
   let newFlags := reserved ||| flags
   writeRaw frame newFlags
 
